@@ -652,7 +652,8 @@ template <class Ad>
 static void do_pinv(Ad& ad, Ctx<typename Ad::I>& cx, const std::vector<long>& primes, const typename Ad::I& x, const typename Ad::I& Q) {
   using I = typename Ad::I;
   cx.ops(&x, nullptr, nullptr, &Q);
-  const char* rg = (Q == cx.P) ? "Q=P" : "Q<P";
+  // Q = 1 (the empty product) is kept apart from the proper non-empty sub-products
+  const char* rg = (Q == cx.P) ? "Q=P" : (Q == 1 ? "Q=1" : "1<Q<P");
   std::pair<I, I> pr;
   bool ok = true;
   if constexpr (Ad::GUARD) ok = guarded([&] { pr = ad.pinv(x, Q); });
@@ -699,7 +700,7 @@ static void multi_sections(Ad& ad, Ctx<typename Ad::I>& cx, const Case& c, const
       cx.eq("get_multiplicative_identity", "-", ad.mul_id(), I(1));
       for (auto& Q : subproducts<I>(primes)) {
         cx.ops(nullptr, nullptr, nullptr, &Q);
-        check_partial_identity(cx, "get_partial_multiplicative_identity", (Q == P) ? "Q=P" : "Q<P", primes, Q, ad.pid(Q));
+        check_partial_identity(cx, "get_partial_multiplicative_identity", (Q == P) ? "Q=P" : (Q == 1 ? "Q=1" : "1<Q<P"), primes, Q, ad.pid(Q));
         ++tot().calls; ++tot().tuples;
         if (!(Q == P)) ++tot().nontrivial;
       }
